@@ -39,12 +39,13 @@ def far_from(p, samples, margin):
 
 def candidate_points(rng, m, n, margin=0.09):
     R = m["info"]["outer_radius"]; c = m["info"].get("centre", (0, 0, 0)); samples = tri_samples(m)
-    out = [p for p in extreme_points(m, margin) if far_from(p, samples, margin * R)]; n += len(out); tries = 0
+    ML = m["info"].get("margin_length", R)      # several separate conductors: the margin is relative to one conductor, not to the whole scene
+    out = [p for p in extreme_points(m, margin) if far_from(p, samples, margin * ML)]; n += len(out); tries = 0
     while len(out) < n and tries < 40 * n:
         tries += 1
         d = models.random_unit(rng); r = 1.35 * R * rng.random() ** (1 / 3.0)
         p = (c[0] + r * d[0], c[1] + r * d[1], c[2] + r * d[2])
-        if far_from(p, samples, margin * R): out.append(p)
+        if far_from(p, samples, margin * ML): out.append(p)
     return out
 
 def flat(l): return [x for t in l for x in t]
@@ -75,7 +76,7 @@ def truth_domains(m, p):
 def extreme_points(m, margin):
     """points just inside and just outside the extreme vertices of every mesh along +-x, +-y, +-z (the corners of the
     bounding boxes of the compartments), pulled towards / pushed away from the mesh centroid"""
-    R = m["info"]["outer_radius"]; out = []
+    R = m["info"].get("margin_length", m["info"]["outer_radius"]); out = []
     for name, vs, ts in m["meshes"]:
         cen = tuple(sum(v[k] for v in vs) / len(vs) for k in range(3))
         for ax in range(3):
@@ -83,6 +84,7 @@ def extreme_points(m, margin):
                 v = pick(vs, key=lambda q: q[ax]); d = math.sqrt(sum((v[k] - cen[k]) ** 2 for k in range(3))) or 1.0
                 for sg in (-1.6, -3.0, +1.6):
                     out.append(tuple(v[k] + sg * margin * R * (v[k] - cen[k]) / d for k in range(3)))
+                out.append(tuple(cen[k] + 0.35 * (v[k] - cen[k]) for k in range(3)))      # well inside the mesh, off its centre
     return out
 
 # ----------------------------------------------------------------------------------------------- harness access
@@ -343,19 +345,20 @@ def gen_model_specs(rng, h, mid, m, quick, rules=None, consts=None):
     if desc[0] is None or desc[0][0] != 0 or cont[0] is None or cont[0][0] != 0:
         return None
     geo_ints = desc[0][1:]; ndom = geo_ints[1]; conds = desc[1][:ndom]; coords = desc[1][ndom:]; nser = len(coords) // 9
-    z = cont[0][1:]; p = 0; where = []
+    z = cont[0][1:]; p = 0; where = []; located = []
     for _ in cand:
-        k = z[p]; where.append(z[p + 1:p + 1 + k]); p += 1 + k
+        k = z[p]; where.append(z[p + 1:p + 1 + k]); located.append(z[p + 1 + k]); p += 2 + k
     # the generator's own location of every candidate (ground truth) vs Geometry::domain / Domain::contains of the library
     truth = [truth_domains(m, pt) for pt in cand]
     loc = dict(checked=0, mismatches=[])
     by_dom = {}
-    for pt, w, t in zip(cand, where, truth):
+    for pt, w, t, lc in zip(cand, where, truth, located):
         if len(t) != 1: continue
         loc["checked"] += 1
-        if list(w) != t:
-            loc["mismatches"].append(dict(point=list(pt), truth=t[0], truth_name=m["domains"][t[0]][0], library=list(w),
-                                          library_name=[m["domains"][k][0] for k in w if k < len(m["domains"])]))
+        if list(w) != t or lc != t[0]:
+            loc["mismatches"].append(dict(point=list(pt), truth=t[0], truth_name=m["domains"][t[0]][0], library=list(w), located=lc,
+                                          library_name=("Geometry::domain -> %s" % (m["domains"][lc][0] if 0 <= lc < len(m["domains"]) else "throws") if lc != t[0] else
+                                                        "Domain::contains true for %s" % [m["domains"][k][0] for k in w if k < len(m["domains"])])))
         by_dom.setdefault(t[0], []).append((pt, w))
     # a batch with dipoles from every domain (conductive or not)
     used = set()
@@ -540,9 +543,10 @@ def main(replay=None):
             models.write_model(m, os.path.join(h.wd, "m%d" % rp["mid"]))
             res = h.run([core.fcase("c08", [7, rp["mid"], 1], rp["point"])])[0]
             t = truth_domains(m, tuple(rp["point"])); w = res[0][2:2 + res[0][1]] if res[0] and res[0][0] == 0 else None
-            if w is None or list(w) != t:
+            lc = res[0][2 + res[0][1]] if w is not None else None
+            if w is None or list(w) != t or [lc] != t:
                 ck.violation("Geometry::domain(p) / Domain::contains: point located in another compartment than the one it was drawn in",
-                             "point %s: generator %s, library %s" % (rp["point"], t, w), dict(rp))
+                             "point %s: generator %s, Domain::contains %s, Geometry::domain %s" % (rp["point"], t, w, lc), dict(rp))
         elif kind == "structure":
             m = rp["model"]; m["meshes"] = [(n, [tuple(v) for v in vs], [tuple(t) for t in ts]) for n, vs, ts in m["meshes"]]
             models.write_model(m, os.path.join(h.wd, "m%d" % rp["mid"]))
@@ -573,13 +577,17 @@ def main(replay=None):
     istats = judge_integ(ck, ic, mo, ho, h)
 
     # ---- S + M on generated head models
-    nmodels = 6 if quick else 40
-    kinds = ["nested", "nonconductive", "split", "inclusions", "nested", "nonconductive"]
+    nmodels = 7 if quick else 40
+    kinds = ["nested", "nonconductive", "split", "inclusions", "separate", "nested", "nonconductive"]
     allspecs = []; infos = []; nstruct = 0; struct_mis = 0; nspec_fail = 0; worst_add = {}; loc_checked = 0; loc_bad = 0
     vstats = dict(cases=0, entries=0, bitwise_entries=0, agree_cases=0, worst_rel=0.0, mismatches=[])
     for mid in range(nmodels):
         kind = kinds[mid] if mid < len(kinds) else ck.rng.choice(kinds)
-        m = models.random_model(ck.rng, 2 if (not quick and mid % 7 == 6) else 1, kinds=(kind,))     # thorough: some 162-vertex meshes
+        if kind == "separate":      # two or three separate (possibly layered) conductors in one air: Air is bounded by several interfaces, listed in any order
+            import geomdesc
+            m = geomdesc.separate_conductors(ck.rng, ck.rng.choice([2, 3]), 1); m["info"]["topology"] = "separate"
+        else:
+            m = models.random_model(ck.rng, 2 if (not quick and mid % 7 == 6) else 1, kinds=(kind,))     # thorough: some 162-vertex meshes
         r_ = ck.rng.random()
         if r_ < 0.25:   # moved / scaled heads: nothing here may depend on the frame
             m = models.move_model(m, models.rational_quaternion(ck.rng), (ck.rng.uniform(-1, 1), ck.rng.uniform(-1, 1), ck.rng.uniform(-1, 1)), ck.rng.choice([1.0, 0.1, 80.0]))
@@ -595,6 +603,9 @@ def main(replay=None):
         allv = [v for _, vs, _ in m["meshes"] for v in vs]
         c = tuple(sum(v[k] for v in allv) / len(allv) for k in range(3))
         m["info"]["centre"] = c; m["info"]["outer_radius"] = max(math.sqrt(sum((v[k] - c[k]) ** 2 for k in range(3))) for v in allv)
+        if kind == "separate":      # margins relative to the largest single conductor (scale-aware), not to the whole scene
+            m["info"]["margin_length"] = max(max(math.sqrt(sum((v[k] - cc[k]) ** 2 for k in range(3))) for v in vs)
+                                             for _, vs, _ in m["meshes"] for cc in [tuple(sum(v[k] for v in vs) / len(vs) for k in range(3))])
         model_store[mid] = m
         g = gen_model_specs(ck.rng, h, mid, m, quick, rules, consts)
         if g is None:
@@ -604,7 +615,7 @@ def main(replay=None):
         loc = info["location"]; loc_checked += loc["checked"]; loc_bad += len(loc["mismatches"])
         for mm_ in loc["mismatches"][:1]:
             ck.violation("Geometry::domain(p) / Domain::contains: point located in another compartment than the one it was drawn in",
-                         "point %s lies in domain #%d (%s) of the generated head (%s; generator's own winding-number location, at least 0.09 R from every surface) but the library reports it inside %s -- the dipole columns of DipSourceMat / DipSource2InternalPotMat then belong to the wrong compartment (%d of %d points of this head mislocated)"
+                         "point %s lies in domain #%d (%s) of the generated head (%s; generator's own winding-number location, at least 0.09 R from every surface) but the library says: %s -- the dipole columns of DipSourceMat / DipSource2InternalPotMat then belong to the wrong compartment (%d of %d points of this head mislocated)"
                          % (mm_["point"], mm_["truth"], mm_["truth_name"], m["info"].get("frame", "as generated"), mm_["library_name"] or "no domain", len(loc["mismatches"]), loc["checked"]),
                          dict(kind="location", model=m, mid=mid, point=mm_["point"], truth=mm_["truth"], replay_cmd="./check C08 --replay <this file>"))
         info["location"] = dict(checked=loc["checked"], mismatches=len(loc["mismatches"])); info["frame"] = m["info"].get("frame", "as generated")
